@@ -4,8 +4,10 @@ import DepsDev.Proofs.C03L2Good
 # C03 layer L3: the prerelease-tagged bounds of one npm comparator's span
 
 For every operator and operand shape of layer L1: a lower bound with a prerelease tag is the
-library's minimum version `0.0.0-0` or is flagged prerelease with exactly three numbers; an upper
-bound (of a vector span) with a prerelease tag is flagged prerelease with exactly three numbers.
+library's minimum version `0.0.0-0` or is flagged prerelease with exactly three numbers, and a
+flagged lower bound has a tag; an upper bound (of a vector span) with a prerelease tag is flagged
+prerelease with exactly three numbers, and a flagged upper bound has a tag or an `∞` component
+(`clearPre` keeps the flag).
 These are the facts the admission test `equalValues v.num bound.num && bound.isPrerelease` needs
 when the effective bound of an AND list comes from another comparator than the one node looks at.
 -/
@@ -15,12 +17,18 @@ open DepsDev DepsDev.Semver DepsDev.Ref DepsDev.Proofs.C09
 
 set_option linter.unusedSimpArgs false
 
-def LoInv (x : Version) : Prop := x.pre ≠ [] → x.num = [0, 0, 0] ∨ (x.isPrerelease = true ∧ x.num.length = 3)
+def LoInv (x : Version) : Prop :=
+  (x.pre ≠ [] → x.num = [0, 0, 0] ∨ (x.isPrerelease = true ∧ x.num.length = 3)) ∧ (x.isPrerelease = true → x.pre ≠ [])
 def HiInv (x : Version) : Prop := x.pre ≠ [] → x.isPrerelease = true ∧ x.num.length = 3
+/-- A flagged upper bound has a tag, or an `∞` component, or (`^0.0.c-pre`, whose upper bound is the
+flagged release `0.0.c`) the lower bound is flagged and has the same numbers. -/
+def FlagInv (a b : Version) : Prop :=
+  b.isPrerelease = true → b.pre ≠ [] ∨ (9223372036854775807 : Int) ∈ b.num ∨ (a.isPrerelease = true ∧ a.num = b.num)
 
 /-- The invariant on the bounds of a span. -/
 def BInv (sp : Span) : Prop :=
-  (∀ x, sp.min = some x → LoInv x) ∧ (∀ x, sp.max = some x → sp.rank = .vector → HiInv x)
+  (∀ x, sp.min = some x → LoInv x) ∧ (∀ x, sp.max = some x → sp.rank = .vector → HiInv x) ∧
+  (∀ a b, sp.min = some a → sp.max = some b → sp.rank = .vector → FlagInv a b)
 
 def InvOut (o : Outcome Span) : Prop := ∀ sp, o = .ok sp → BInv sp
 
@@ -28,27 +36,29 @@ theorem invOut_empty : InvOut (.ok Span.emptySpan) := by
   intro sp h
   injection h with h
   subst h
-  exact ⟨fun x h => (by cases h), fun x h => (by cases h)⟩
+  exact ⟨fun x h => (by cases h), fun x h => (by cases h), fun a b h => (by cases h)⟩
 
 theorem invOut_err : InvOut .err := fun _ h => by cases h
 
-theorem invOut_newSpan {a b : Version} (ao bo : Bool) (ta : LoInv (nmin a)) (tb : HiInv (nmax b)) :
-    InvOut (newSpan a ao b bo) := by
+theorem invOut_newSpan {a b : Version} (ao bo : Bool) (ta : LoInv (nmin a)) (tb : HiInv (nmax b))
+    (tc : FlagInv (nmin a) (nmax b)) : InvOut (newSpan a ao b bo) := by
   intro sp h
   rw [newSpan_unfold] at h
   simp only [bind, Outcome.bind] at h
   split at h
   · split at h
     · injection h with h; subst h
-      exact ⟨fun x hx => (by cases hx), fun y hy => (by cases hy)⟩
+      exact ⟨fun x hx => (by cases hx), fun y hy => (by cases hy), fun _ _ hx => (by cases hx)⟩
     · split at h
       · injection h with h; subst h
-        exact ⟨fun x hx => (by injection hx with hx; rw [← hx]; exact ta), fun y _ hr => (by cases hr)⟩
+        exact ⟨fun x hx => (by injection hx with hx; rw [← hx]; exact ta), fun y _ hr => (by cases hr),
+          fun _ _ _ _ hr => (by cases hr)⟩
       · split at h
         · split at h
           · injection h with h; subst h
             exact ⟨fun x hx => (by injection hx with hx; rw [← hx]; exact ta),
-              fun y hy _ => (by injection hy with hy; rw [← hy]; exact tb)⟩
+              fun y hy _ => (by injection hy with hy; rw [← hy]; exact tb),
+              fun x y hx hy _ => (by injection hx with hx; injection hy with hy; rw [← hx, ← hy]; exact tc)⟩
           · cases h
         · cases h
         · cases h
@@ -57,14 +67,14 @@ theorem invOut_newSpan {a b : Version} (ao bo : Bool) (ta : LoInv (nmin a)) (tb 
 
 /-- Close a `LoInv`/`HiInv` goal on an explicit normalised bound. -/
 macro "inv_close" : tactic => `(tactic|
-  (simp [LoInv, HiInv, nmin, nmax, Version.major, Version.getNum, Version.setTail, Version.atLeast3, range3,
+  (simp [LoInv, HiInv, FlagInv, nmin, nmax, Version.major, Version.getNum, Version.setTail, Version.atLeast3, range3,
      wild_val, inf_val, List.findIdx?_cons, minVersion, natCast_beq_wild, natCast_ne_wild, natCast_succ_beq_wild,
      natCast_succ_ne_wild, Gen.SemverTables.minPre, embedPre, *]))
 
 macro "inv_npm_fin" : tactic => `(tactic| first
   | with_reducible exact invOut_empty
   | with_reducible exact invOut_err
-  | ((with_reducible refine invOut_newSpan _ _ ?_ ?_) <;> inv_close))
+  | ((with_reducible refine invOut_newSpan _ _ ?_ ?_ ?_) <;> inv_close))
 
 macro "inv_npm" : tactic => `(tactic| first
   | inv_npm_fin
